@@ -196,6 +196,17 @@ def opspecs(form, fields):
                     else:
                         fld = "V" + rest
                         if fld not in fnames:
+                            # the DB sometimes names the operand `Bd` while the template calls the field `Vs` / `Vt` (stur, stp ...):
+                            # bind the operand to the only vector register field that no operand names
+                            named = set()
+                            for o2 in ops:
+                                m2 = re.match(r"^\{?\d?[BHSDQV]([a-z]\d?)", o2["data"]) if o2["type"] == "reg" else None
+                                if m2:
+                                    named.add("V" + m2.group(1))
+                            cands = [n for n in fnames if re.fullmatch(r"V[a-z]\d?", n) and n not in used and n not in named]
+                            if len(cands) == 1 and len(rest) == 1:
+                                fld = cands[0]
+                        if fld not in fnames:
                             spec = "(.unchecked %s)" % q(d)
                         else:
                             used.add(fld)
